@@ -21,7 +21,7 @@ type Profile struct {
 var (
 	tokWords  = []string{"a", "b", "foo", "bar", "baz", "Foo", "x", "1", "2", "10", "abc def", "word", "z", "A", "ß", "ẞ", "é", "日本", "語", "한", "http", "www", "com", "e"}
 	tokSpace  = []string{" ", " ", " ", "  ", "   ", "    ", "     ", "\t", "\t\t", " \t", "\t "}
-	tokNL     = []string{"\n", "\n", "\n", "\n", "\n\n", "\n\n", "\r\n", "\r", "\n \n", "\n\t\n", "  \n", "\\\n"}
+	tokNL     = []string{"\n", "\n", "\n", "\n", "\n\n", "\n\n", "\r\n", "\r", "\n \n", "\n\t\n", "  \n", "\\\n", "\\  \n", "a\\  \n\\", "\\\\\n"}
 	tokBlock  = []string{"#", "##", "###", "######", "#######", "# ", "## ", "-", "- ", "+ ", "* ", "1.", "1. ", "9) ", "123456789. ", "1234567890. ", "0. ", "-\t", "> ", ">", ">>", "> > ", "```", "````", "~~~", "~~~~", "``` go", "~~~ a b", "===", "=", "---", "--", "***", "___", "* * *", "- - -", "_ _ _", "    ", "\t", "  - ", "   1. ", "```\n", "~~~\n"}
 	tokInline = []string{"*", "**", "***", "_", "__", "___", "`", "``", "```", "[", "]", "(", ")", "![", "](", "][", "[]", "]:", "]: ", "<", ">", "\\", "\\\\", "&", ";", ":", "|", "\"", "'", "=", "!", "/", "#", "{", "}", ".", ",", "-", "+", "~", "^", "@", "%", "$", "?", "\n]", "\n](u)", "a\n](u)", "\n*", "*a\n*", "**a\n**", "\n_", "[foo\nbar]", "[foo\nbar][]", "[t][foo\nbar]", "![foo\nbar]", "[foo\nbar]: /u\n", "[foo\n bar]: /u \"t\"\n", "[r]", "[r][]", "[t][r]", "[r]: /u\n", "[R]: /v\n", "\n\n[r]: <u v> 't'\n\n"}
 	tokEsc    = []string{"\\*", "\\_", "\\`", "\\[", "\\]", "\\(", "\\)", "\\<", "\\>", "\\\\", "\\&", "\\#", "\\!", "\\|", "\\~", "\\:", "\\\"", "\\'", "\\a", "\\ ", "\\\t", "\\\n", "\\\r\n"}
